@@ -6,9 +6,19 @@ Request:  {"op": "redist_f64" | "redist_f32" | "redist_rat", "rank": k,
                                                    score: hex bit pattern (f64 / f32) or "p/q")
 Reply:    {"ok": [[dim, [[key, rank], ...]], ...]}   (groups in dict order, members in sorted order)
        or {"err": "baseRank" | "rankExceedsDim" | "overBudget", "detail": [a, b]}
+
+Whole pipeline (extension: traversal + scoring + allocation + returned dict), `Model/ReallocState.lean`:
+Request:  {"op": "pipe_f64" | "pipe_rat", "rule": "<rule name>", "avg": bool, "recip": bool, "rank": k,
+           "states": [tree, ...], "order": [[component, ...], ...]}
+          tree: JSON object = dict; a JSON array is a leaf: ["s", x] scalar, ["v", [x..]] vector,
+          ["m", [[x..]..], norm2] matrix + value of norm(., 2), ["shape", [d..]], ["i", n] int, ["o"] anything else
+Reply:    {"num_axes": n, "axes": [[name, dim, score], ...] (in `order`), "ranks": [[dim, [[name, rank], ...]], ...],
+           "flat": [[dir, row], ...], "dict": nested object with the rows}
+       or {"err": tag, "detail": ...}
 -/
 import PrecondVerif.Kit.Proto
 import PrecondVerif.Model.Realloc
+import PrecondVerif.Model.ReallocState
 
 namespace PrecondVerif.Drv.C17
 open Lean PrecondVerif.Proto PrecondVerif.Realloc
@@ -37,7 +47,81 @@ def redistOp {α} (score : Json → R α)
   else if variant == "running" then pure (resultJson (running k axes))
   else pure (resultJson (new k axes))
 
+/-! ### whole pipeline -/
+
+def parseLeafOrTree {α} (num : Json → R α) : Nat → Json → R (Tree α)
+  | 0, _ => .error "tree too deep"
+  | fuel + 1, j =>
+    match j with
+    | .obj kvs => do
+      let items ← kvs.toList.mapM (fun (kv : String × Json) => do
+        let t ← parseLeafOrTree num fuel kv.2
+        pure (kv.1, t))
+      pure (.dict items)
+    | .arr a =>
+      match a.toList with
+      | [.str "s", x] => do pure (.leaf (.scalar (← num x)))
+      | [.str "v", xs] => do pure (.leaf (.vec (← asListOf num xs)))
+      | [.str "m", rows, n] => do pure (.leaf (.mat (← asListOf (asListOf num) rows) (← num n)))
+      | [.str "shape", ds] => do pure (.leaf (.shape (← asListOf asNat ds)))
+      | [.str "i", n] => do pure (.leaf (.int (← asNat n)))
+      | _ => pure (.leaf .other)
+    | _ => pure (.leaf .other)
+
+def parseRule (s : String) : R Rule :=
+  match s with
+  | "ggt_intrinsic_rank" => pure .ggtIntrinsicRank
+  | "ggt_trace" => pure .ggtTrace
+  | "tail_rho" => pure .tailRho
+  | "sketch_intrinsic_rank" => pure .sketchIntrinsicRank
+  | "sketch_trace" => pure .sketchTrace
+  | _ => .error s!"unknown rule {s}"
+
+def pathJson (p : Path) : Json := listToJson Json.str p
+
+partial def rtreeJson : RTree → Json
+  | .row r => intsToJson r
+  | .node items => Json.mkObj (items.map fun kv => (kv.1, rtreeJson kv.2))
+
+def terrJson : TErr → Json
+  | .noStates => obj [("err", "noStates")]
+  | .noSketches => obj [("err", "noSketches")]
+  | .shortName n => obj [("err", "shortName"), ("detail", pathJson n)]
+  | .badAxisId n => obj [("err", "badAxisId"), ("detail", pathJson n)]
+  | .missing n k => obj [("err", "missing"), ("detail", pathJson n), ("key", Json.str k)]
+  | .badLeaf n k => obj [("err", "badLeaf"), ("detail", pathJson n), ("key", Json.str k)]
+  | .noLayerDir n => obj [("err", "noLayerDir"), ("detail", pathJson n)]
+  | .slotOutOfRange n k => obj [("err", "slotOutOfRange"), ("detail", pathJson n), ("num_axes", toJson k)]
+  | .collision d => obj [("err", "collision"), ("detail", pathJson d)]
+  | .badOrder => obj [("err", "badOrder")]
+  | .assertion (.baseRank a b) => obj [("err", "baseRank"), ("detail", intsToJson [a, b])]
+  | .assertion (.rankExceedsDim a b) => obj [("err", "rankExceedsDim"), ("detail", intsToJson [a, b])]
+  | .assertion (.overBudget a b) => obj [("err", "overBudget"), ("detail", intsToJson [a, b])]
+
+def pipeJson {α} (num : α → Json) : Except TErr (PipelineOut α) → Json
+  | .error e => terrJson e
+  | .ok o => obj [
+      ("num_axes", toJson o.numAxes),
+      ("axes", listToJson (fun (a : Path × Nat × α) => Json.arr #[pathJson a.1, toJson a.2.1, num a.2.2]) o.axes),
+      ("ranks", listToJson (fun (g : Nat × List (Path × Int)) =>
+        Json.arr #[toJson g.1, listToJson (fun (p : Path × Int) => Json.arr #[pathJson p.1, toJson p.2]) g.2]) o.ranks),
+      ("flat", listToJson (fun (e : Path × List Int) => Json.arr #[pathJson e.1, intsToJson e.2]) o.map),
+      ("dict", rtreeJson (render o.map))]
+
+def pipeOp {α} (num : Json → R α) (out : α → Json)
+    (run : Bool → Rule → Bool → Int → List (Tree α) → List Path → Except TErr (PipelineOut α))
+    (j : Json) : R Json := do
+  let rule ← parseRule (← getStr j "rule")
+  let avg ← getBool j "avg"
+  let recip ← getBool j "recip"
+  let k ← getInt j "rank"
+  let states ← asListOf (parseLeafOrTree num 64) (← field j "states")
+  let order ← asListOf (asListOf asStr) (← field j "order")
+  pure (pipeJson out (run recip rule avg k states order))
+
 def ops : List Op := [
+  ("pipe_f64", pipeOp asFloat floatToJson pipelineFloat),
+  ("pipe_rat", pipeOp asRat ratToJson pipelineRat),
   ("redist_f64", redistOp asFloat createRedistFloat createRedistOldFloat createRedistRunningFloat),
   ("redist_f32", redistOp asFloat32 createRedistFloat32 createRedistOldFloat32 createRedistRunningFloat32),
   ("redist_rat", redistOp asRat createRedistRat createRedistOldRat createRedistRunningRat)
